@@ -262,6 +262,7 @@ fn main() {
     };
     let (mut n_events, mut n_ok, mut n_err, mut n_checks, mut max_objs) = (0u64, 0u64, 0u64, 0u64, 0usize);
     let mut verbs: BTreeMap<String, (u64, u64)> = BTreeMap::new();
+    let mut spelled: BTreeMap<String, (u64, u64)> = BTreeMap::new();
     let mut seqno = 0usize;
     for run in 0..runs {
         let mut rng = Rng((seed.wrapping_mul(1_000_003) + run as u64).wrapping_mul(0x9E3779B97F4A7C15) | 1);
@@ -287,6 +288,10 @@ fn main() {
             };
             let e = verbs.entry(cmd["verb"].as_str().unwrap().to_string()).or_insert((0, 0));
             if res { e.0 += 1; n_ok += 1 } else { e.1 += 1; n_err += 1 }
+            if let Some(sp) = cmd.get("sp").and_then(|x| x.as_str()) {
+                let e = spelled.entry(format!("{}:{}", cmd["verb"].as_str().unwrap(), if BAD_SPELLINGS.contains(&sp) { "unreadable" } else { "readable" })).or_insert((0, 0));
+                if res { e.0 += 1 } else { e.1 += 1 }
+            }
             present = conc.project(&st);
             let objs: usize = ["lst", "clu", "bke", "hfr", "crt", "tfr"].iter().map(|k| present[*k].as_array().unwrap().len()).sum();
             max_objs = max_objs.max(objs);
@@ -330,5 +335,6 @@ fn main() {
     drop(report);
     for v in &violations { vh::util::emit(v); }
     vh::util::emit(&json!({"kind": "summary", "runs": runs, "events": n_events, "accepted": n_ok, "rejected": n_err,
-        "real_checks": n_checks, "max_objects_in_a_state": max_objs, "verbs": verbs, "classes": classes}));
+        "real_checks": n_checks, "max_objects_in_a_state": max_objs, "verbs": verbs,
+        "spelled_certificate_commands": spelled, "classes": classes}));
 }
